@@ -268,7 +268,8 @@ func c11Moment(w *W, st ref.Stamp, class string) {
 			return strings.Join(filterParts(digest1(e), []string{"GetLunar="}), ";")
 		}
 		f1, f2 := fresh(1), fresh(2)
-		one := solarOf(st).GetLunar().GetEightChar()
+		lone := solarOf(st).GetLunar()
+		one := lone.GetEightChar()
 		seq := []int{2, 1, 2, 1}
 		if st.S%2 == 0 {
 			seq = []int{1, 2, 1, 2}
@@ -283,7 +284,15 @@ func c11Moment(w *W, st ref.Stamp, class string) {
 			if got != want {
 				w.Violatef("chart-sect-switch", fmt.Sprintf("%s/step%d", key, i), "one EightChar at %s after the SetSect sequence %v: accessors differ from a fresh chart with sect %d: %s", key, seq[:i+1], sect, diffDigests(got, want))
 			}
-			w.Eval(1)
+			// the Lunar's deprecated GetBaZi* aliases are documented as the chart's values: they follow the chart's convention
+			a := fmt.Sprint(lone.GetBaZi(), lone.GetBaZiWuXing(), lone.GetBaZiNaYin(), lone.GetBaZiShiShenGan(), listStrings(lone.GetBaZiShiShenDayZhi()), listStrings(lone.GetBaZiShiShenTimeZhi()))
+			b := fmt.Sprint([4]string{one.GetYear(), one.GetMonth(), one.GetDay(), one.GetTime()}, [4]string{one.GetYearWuXing(), one.GetMonthWuXing(), one.GetDayWuXing(), one.GetTimeWuXing()},
+				[4]string{one.GetYearNaYin(), one.GetMonthNaYin(), one.GetDayNaYin(), one.GetTimeNaYin()}, [4]string{one.GetYearShiShenGan(), one.GetMonthShiShenGan(), one.GetDayShiShenGan(), one.GetTimeShiShenGan()},
+				listStrings(one.GetDayShiShenZhi()), listStrings(one.GetTimeShiShenZhi()))
+			if a != b {
+				w.Violatef("route", fmt.Sprintf("GetBaZi*|EightChar after SetSect(%d)@%s", sect, key), "after SetSect(%d) on the chart of the Lunar at %s its GetBaZi* aliases give %s, the chart %s", sect, key, a, b)
+			}
+			w.Eval(2)
 		}
 		w.Count("sect-switch-sequences", 1)
 	}
